@@ -9,7 +9,7 @@ All arguments are natural numbers separated by blanks.
   extract docid caching nsel sel*
   parsecmap name next (code cid)*
 DOC      := nobjs (n sid)* nfs (objid FONTSPEC)* nopen n* npages PAGE*        (sid 0 = direct)
-FONTSPEC := kind base ndiffs (code glyphindex)* hasToU ntou (cid nu u*)* cmap umap usecmap nreads n*
+FONTSPEC := kind vertical base ndiffs (code glyphindex)* hasToU ntou (cid nu u*)* cmap umap usecmap nreads n*
 PAGE     := nwalk n* nfonts FONTREF* nreads n* nshows (fontidx ncodes code*)* ngops (code v)*
              code: 0 re 1 m 2 l 3 h 4 paint 5 n 6 q 7 Q 8 w(v) 9 operand(v)
 FONTREF  := 0 objid | 1 FONTSPEC
@@ -48,9 +48,9 @@ def pPair {α β : Type} (p : P α) (q : P β) : P (α × β) := fun ts =>
     | some (b, ts2) => some ((a, b), ts2)
 
 def pFontSpec : P FontSpec := fun ts =>
-  match pPair pNat pNat ts with
+  match pPair pNat (pPair pNat pNat) ts with
   | none => none
-  | some ((kind, base), ts1) =>
+  | some ((kind, vert, base), ts1) =>
   match pList (pPair pNat pNat) ts1 with
   | none => none
   | some (diffs, ts2) =>
@@ -68,7 +68,7 @@ def pFontSpec : P FontSpec := fun ts =>
   | some (reads, ts6) =>
     -- a glyph name unknown to the table makes the code undefined (KeyError path of get_encoding)
     let ds := diffs.map (fun e => (e.1, glyphUnicode e.2))
-    some ({ kind := kind, base := base, diffs := ds, hasToUnicode := hasT != 0, tounicode := tou,
+    some ({ kind := kind, vertical := vert != 0, base := base, diffs := ds, hasToUnicode := hasT != 0, tounicode := tou,
             cmap := cm, umap := um, usecmap := uc, reads := reads }, ts6)
 
 def pFontRef : P FontRef := fun ts =>
@@ -127,7 +127,7 @@ structure DState where
 def mkWorld (cms ums : List Nat) : World :=
   { encInit := encTables,
     loadCMap := fun k => if cms.contains k then some [(k, k + 1), (k + 1, 2 * k)] else none,
-    loadUMap := fun k => if ums.contains k then some [(k + 1, 65 + k)] else none }
+    loadUMap := fun k => if ums.contains k then some ([(k + 1, 65 + k)], [(k + 1, 97 + k)]) else none }
 
 def csv (xs : List Nat) : String := ",".intercalate (xs.map toString)
 
@@ -158,7 +158,7 @@ def showPage (d : DocSpec) (k : Option Nat) (p : PageOut) : String :=
           | none => 0
         | none => 0)
   let parts := (p.glyphs.zip kinds).map (fun (gs, kd) =>
-    if kd = 2 then (if gs.isEmpty then [] else ["?"]) else gs.map showGlyph)
+    if kd = 2 || kd = 3 then (if gs.isEmpty then [] else ["?"]) else gs.map showGlyph)
   let flat := parts.flatten
   let sh := if p.shapes.isEmpty then "-" else ",".intercalate (p.shapes.map (fun s => toString s.1 ++ ":" ++ toString s.2))
   (if flat.isEmpty then "-" else ",".intercalate flat) ++ " " ++ sh
